@@ -46,7 +46,7 @@ def _primes(k):
     return out
 
 
-PRIMES = _primes(400)
+PRIMES = _primes(1300)
 
 # ---- alphabets ------------------------------------------------------------------------------------------
 
@@ -1511,6 +1511,18 @@ def _spaces(tier, seed=0):
             sp.append(_sp("ident %dx%dx%d: identity map vs plain Euler, uniform environment x {no, rich} chemostats x 3 unit configurations"
                           % g, "ident", g, None, envs=("uniform",), chems="none+rich", units=(0, 1, 2), engine=True))
     # -- process histories, script alphabet ---------------------------------------------------------------------
+    # -- static: groups far beyond the small scope, with member / flagged-member counts around 2^8 (a narrow counter) ---
+    big = []
+    for g in ((16, 16, 1), (257, 1, 1), (32, 16, 1), (8, 8, 4)):
+        n = g[0] * g[1] * g[2]
+        halves = [0 if i < n // 2 else 1 for i in range(n)]
+        for m in ([0] * n, halves, [0] * (n - 1) + [-1]):
+            for chem in ([1] * n + [0] * n,                       # species 0 flagged everywhere, species 1 nowhere
+                         [1] * (n - 1) + [0] + [0] * (n - 1) + [1],   # all but the last cell / only the last cell
+                         chem_rich(2, n)):
+                big.append({"sub": "cg", "grid": list(g), "env": [1] * n, "chem": list(chem), "nspecies": 2, "units": 0, "map": list(m)})
+    sp.append(_sp_list("cg large groups: grids 16x16x1, 257x1x1, 32x16x1, 8x8x4 x {one group, two halves, one group + one dropped cell} x "
+                       "3 chemostat maps (a species flagged in 255 / 256 / 257 / 512 members of a group, in one member, the rich map)", "cg", big))
     sp += _hist_spaces(T)
     sp += _script_spaces(T, seed)
     sp += _net_spaces(T)
